@@ -2,10 +2,10 @@
 package props
 
 import (
-	"reflect"
-	"unsafe"
 	"encoding/json"
 	"fmt"
+	"reflect"
+	"unsafe"
 
 	"pipelined.dev/signal"
 	"verif/mc/core"
